@@ -41,6 +41,45 @@ type OutsideMsg struct {
 	B string
 }
 
+// OptMsg has an optional field: without it the message is legitimately rejected by its writer.
+type OptMsg struct {
+	P *int32
+	S string
+}
+
+// rejected encodes: shapes the codec must refuse with an error. They are interleaved with the
+// round trips because every encode path shares pooled writers: a refusal must not leak into
+// the next message.
+func rejectedEncode(t *rapid.T) string {
+	k := rapid.IntRange(0, 4).Draw(t, "rejectKind")
+	var msg any
+	switch k {
+	case 0:
+		msg = &OptMsg{S: "no P"}
+	case 1:
+		msg = &messages.PongMessage{}
+	case 2:
+		msg = &OptMsg{P: new(int32), S: string(make([]byte, 300))} // too long for the 1-byte length
+	case 3:
+		msg = &struct{ X int }{1} // unregistered, the codec refuses it
+	default:
+		msg = (*OptMsg)(nil)
+	}
+	w := messages.NewWriterFromPool()
+	_, _ = safe(func() error { return w.WriteMessage(msg, failingCodec{}) })
+	messages.ReleaseWriterToPool(w)
+	_, _ = safe(func() error {
+		_, err := serialize.EncodeEnvelopWithRemoting(failingCodec{}, mailbox.NewEnvelop(false, nil, nil, msg))
+		return err
+	})
+	return fmt.Sprintf("rejected#%d", k)
+}
+
+type failingCodec struct{}
+
+func (failingCodec) Encode(m vivid.Message) ([]byte, error) { return nil, fmt.Errorf("refused") }
+func (failingCodec) Decode(b []byte) (vivid.Message, error) { return nil, fmt.Errorf("refused") }
+
 func init() {
 	vivid.RegisterCustomMessage[*CustomMsg]("verif.CustomMsg",
 		func(message any, r *messages.Reader, _ messages.Codec) error {
@@ -50,6 +89,24 @@ func init() {
 		func(message any, w *messages.Writer, _ messages.Codec) error {
 			m := message.(*CustomMsg)
 			return w.WriteFrom(m.Sender, m.Seq, m.Body, m.Tags)
+		})
+	vivid.RegisterCustomMessage[*OptMsg]("verif.OptMsg",
+		func(message any, r *messages.Reader, _ messages.Codec) error {
+			m := message.(*OptMsg)
+			m.P = new(int32)
+			if err := r.ReadInto(m.P); err != nil {
+				return err
+			}
+			s, err := r.ReadShortString()
+			m.S = s
+			return err
+		},
+		func(message any, w *messages.Writer, _ messages.Codec) error {
+			m := message.(*OptMsg)
+			if err := w.WriteFrom(m.P); err != nil {
+				return err
+			}
+			return w.WriteShortString(m.S).Err()
 		})
 }
 
@@ -66,7 +123,13 @@ func (jsonCodec) Decode(b []byte) (vivid.Message, error) {
 
 var codec = jsonCodec{}
 
-func registry() map[string]reflect.Type { return messages.VerifRegistry() }
+// the generated registry: everything registered except the harness's own partial type OptMsg
+// (its writer rejects part of its value space on purpose)
+func registry() map[string]reflect.Type {
+	r := messages.VerifRegistry()
+	delete(r, "verif.OptMsg")
+	return r
+}
 
 func opt() arb.Opt {
 	return arb.Opt{Registry: registry(), MaxDepth: 3, NilMessage: true, NilPointers: false}
@@ -124,8 +187,16 @@ func TestC12Messages(t *testing.T) {
 	rapid.Check(t, func(rt *rapid.T) {
 		name := rapid.SampledFrom(ns).Draw(rt, "type")
 		msg := arb.Message(rt, registry()[name], opt(), 0)
-		f := &failer{rt, func() string { return describe(msg) }}
+		pre := ""
+		if rapid.IntRange(0, 3).Draw(rt, "rejectFirst") == 0 {
+			pre = rejectedEncode(rt)
+		}
+		f := &failer{rt, func() string { return pre + " " + describe(msg) }}
 		w := messages.NewWriter()
+		if rapid.Bool().Draw(rt, "pooled") {
+			w = messages.NewWriterFromPool()
+			defer messages.ReleaseWriterToPool(w)
+		}
 		err, pv := safe(func() error { return w.WriteMessage(msg, codec) })
 		if pv != nil {
 			f.fail("roundtrip|"+name+"|encode-panic", "encoding panicked: %v", pv)
@@ -212,8 +283,12 @@ func TestC12Envelopes(t *testing.T) {
 			receiver = arb.GenRef(rt)
 		}
 		system := rapid.Bool().Draw(rt, "system")
+		pre := ""
+		if rapid.IntRange(0, 2).Draw(rt, "rejectFirst") == 0 {
+			pre = rejectedEncode(rt)
+		}
 		f := &failer{rt, func() string {
-			return fmt.Sprintf("system=%v sender=%v receiver=%v msg=%s", system, sender, receiver, describe(msg))
+			return pre + fmt.Sprintf(" system=%v sender=%v receiver=%v msg=%s", system, sender, receiver, describe(msg))
 		}}
 		e := mailbox.NewEnvelop(system, sender, receiver, msg)
 		var data []byte
